@@ -264,6 +264,106 @@ whatever `argvals_stand` was before. -/
 theorem setArg_restores_stand {x y : Grid} {a : ArgV} (hx : GridInvNoStand x) (h : setArg x a = .ok y) :
     GridInv y := setArg_inv hx h
 
+/-! ## Inherited list operations outside the property's list, and basis data -/
+
+/-- `del mfd[i]`, `mfd + […]`, `mfd * k`, `mfd *= k`, `copy`, `sort` keep a consistent multivariate
+object consistent (`+` and `*` go through the constructor; the others only drop or repeat components). -/
+theorem xop_preserves (cs ds : List Grid) (op : XOp) (h : StateInv (.multi cs))
+    (hop : ∀ i r, op ≠ .setItem i r) (hop' : ∀ rs, op ≠ .iadd rs) (hr : stepX cs op = .ok ds) :
+    StateInv (.multi ds) := by
+  have hrep : ∀ k : Int, ∀ d ∈ repeatList cs k, d ∈ cs := by
+    intro k d hd
+    unfold repeatList at hd
+    obtain ⟨l, hl, hdl⟩ := List.mem_flatten.1 hd
+    rw [List.eq_of_mem_replicate hl] at hdl
+    exact hdl
+  cases op with
+  | setItem i r => exact absurd rfl (hop i r)
+  | iadd rs => exact absurd rfl (hop' rs)
+  | delItem i =>
+    simp only [stepX] at hr
+    split at hr
+    · cases hr
+      exact ⟨fun d hd => h.1 d (mem_eraseIdx_sub hd), h.2.subset fun d hd => mem_eraseIdx_sub hd⟩
+    · cases hr
+  | add rs =>
+    simp only [stepX] at hr
+    cases hb : buildAll rs with
+    | error e => rw [hb] at hr; cases hr
+    | ok es =>
+      rw [hb] at hr
+      obtain ⟨rfl, hs⟩ := mkMulti_ok hr
+      refine ⟨?_, hs⟩
+      intro d hd
+      rcases List.mem_append.1 hd with hd | hd
+      · exact h.1 d hd
+      · exact buildAll_inv hb d hd
+  | mul k =>
+    simp only [stepX] at hr
+    obtain ⟨rfl, hs⟩ := mkMulti_ok hr
+    exact ⟨fun d hd => h.1 d (hrep k d hd), hs⟩
+  | imul k =>
+    simp only [stepX] at hr
+    cases hr
+    exact ⟨fun d hd => h.1 d (hrep k d hd), h.2.subset (hrep k)⟩
+  | copy => simp only [stepX] at hr; cases hr; exact h
+  | sort =>
+    simp only [stepX] at hr
+    split at hr
+    · cases hr; exact h
+    · cases hr
+
+/-- `mfd[i] = c` does not check the number of observations: outside the property's operation list,
+recorded here so that nobody relies on it. -/
+theorem xop_setitem_counterexample :
+    ∃ cs ds i r, StateInv (.multi cs) ∧ stepX cs (.setItem i r) = .ok ds ∧ ¬ StateInv (.multi ds) := by
+  refine ⟨[.dense [3] 1 [0, 1] [3] (.dense [3]), .dense [3] 1 [0, 1] [3] (.dense [3])],
+    [.dense [2] 0 [5, 6, 7] [2] (.dense [2]), .dense [3] 1 [0, 1] [3] (.dense [3])],
+    0, .dense (.dense [2] 0) (.dense [5, 6, 7] [2]), ?_, by decide, ?_⟩
+  · refine ⟨?_, ?_⟩
+    · intro c hc
+      simp only [List.mem_cons, List.mem_nil_iff, or_false, or_self] at hc
+      subst hc
+      exact mkDense_inv (a := .dense [3] 1) (v := .dense [0, 1] [3]) rfl
+    · intro c hc c' hc'
+      simp only [List.mem_cons, List.mem_nil_iff, or_false, or_self] at hc hc'
+      subst hc; subst hc'; rfl
+  · intro h
+    have := h.2 _ List.mem_cons_self _ (List.mem_cons_of_mem _ List.mem_cons_self)
+    revert this; decide
+
+/-- `mfd += […]` does not check the number of observations either (`mfd + […]` does). -/
+theorem xop_iadd_counterexample :
+    ∃ cs ds rs, StateInv (.multi cs) ∧ stepX cs (.iadd rs) = .ok ds ∧ ¬ StateInv (.multi ds) ∧
+      stepX cs (.add rs) = .error .valueError := by
+  refine ⟨[.dense [3] 1 [0, 1] [3] (.dense [3])],
+    [.dense [3] 1 [0, 1] [3] (.dense [3]), .dense [2] 0 [5, 6, 7] [2] (.dense [2])],
+    [.dense (.dense [2] 0) (.dense [5, 6, 7] [2])], ?_, by decide, ?_, by decide⟩
+  · refine ⟨?_, ?_⟩
+    · intro c hc
+      simp only [List.mem_cons, List.mem_nil_iff, or_false] at hc
+      subst hc
+      exact mkDense_inv (a := .dense [3] 1) (v := .dense [0, 1] [3]) rfl
+    · intro c hc c' hc'
+      simp only [List.mem_cons, List.mem_nil_iff, or_false] at hc hc'
+      subst hc; subst hc'; rfl
+  · intro h
+    have := h.2 _ List.mem_cons_self _ (List.mem_cons_of_mem _ List.mem_cons_self)
+    revert this; decide
+
+/-- Basis data (not among the property's object kinds): the constructor and the `coefficients`
+attribute are unguarded — an object with 3 basis functions and 5 coefficient columns can be built … -/
+theorem basis_unguarded : (mkBasis 3 [11] [0, 1] 5).consistent = false ∧
+    ((mkBasis 3 [11] [0, 1] 3).setCoef [0, 1, 2, 3] 7).consistent = false := by decide
+
+/-- … while selection keeps whatever consistency there was (the basis is shared, rows are selected). -/
+theorem basis_getitem_preserves {b b' : BasisObj} {ix : Index} (h : b.getitem ix = .ok b') :
+    b'.consistent = b.consistent ∧ b'.nFun = b.nFun ∧ b'.pts = b.pts := by
+  unfold BasisObj.getitem at h
+  cases hd : denseGet b.rows ix with
+  | error e => rw [hd] at h; cases h
+  | ok rows' => rw [hd] at h; cases h; exact ⟨rfl, rfl, rfl⟩
+
 /-! ## The tree as coded (`argvals_stand` setter unguarded): partial result, refinement, counterexample -/
 
 /-- What the property demands of the tree as coded. -/
